@@ -22,6 +22,10 @@ inline std::vector<long long> window(long long lo, long long hi, int dense, uint
     for (long long x : v) if (x >= lo && x <= hi) out.push_back(x);
     return out;
 }
+template <bool SameRep> struct UnitOnlyForms {
+    template <typename P, typename U, typename R> static bool agree(P p, U u, R res) { return p.coerce_in(u) == res && p.coerce_as(u).in(u) == res; }
+};
+template <> struct UnitOnlyForms<false> { template <typename P, typename U, typename R> static bool agree(P, U, R) { return true; } };
 template <typename U1, typename R1, typename U2, typename R2>
 void pconv(int i, int j, const char *A_, const char *B_, const char *C_, long long lo, long long hi, uint64_t seed) {
     const i128 A = parse_i128(A_), B = parse_i128(B_), C = parse_i128(C_);
@@ -37,22 +41,23 @@ void pconv(int i, int j, const char *A_, const char *B_, const char *C_, long lo
         R2 r2 = p.template coerce_as<R2>(U2{}).in(U2{});
         R2 r3 = p.template in<R2>(U2{});
         R2 r4 = p.template as<R2>(U2{}).in(U2{});
+        bool unit_only_ok = UnitOnlyForms<std::is_same<R1, R2>::value>::agree(p, U2{}, res);     // p.coerce_in(u), p.coerce_as(u): rep stays R1
         int ub = au_verif_ub_flag;
         ++n;
         i128 num = (i128)xv * A + B;
         bool exact = (num % C) == 0;
         i128 e = exact ? num / C : 0;
         bool inr = exact && e >= (i128)std::numeric_limits<R2>::lowest() && e <= (i128)std::numeric_limits<R2>::max();
-        bool bad = (r2 != res) || (r3 != res) || (r4 != res) || (inr && ((i128)res != e || ub));
+        bool bad = (r2 != res) || (r3 != res) || (r4 != res) || !unit_only_ok || (inr && ((i128)res != e || ub));
         if (exact) ++nexact;
         if (bad) ++mism;
         if ((bad && mism <= 25) || (exact && (rng.next() % 16 == 0)) || (!exact && rng.next() % 512 == 0))
-            std::printf("{\"k\":\"pconv\",\"i\":%d,\"j\":%d,\"R1\":\"%s\",\"R2\":\"%s\",\"x\":%s,\"res\":%s,\"cexact\":%d,\"ub\":%d,\"why\":\"%s\"}\n", i, j, rep_name<R1>(), rep_name<R2>(),
-                        wire((i128)xv).c_str(), wire((i128)res).c_str(), (int)exact, ub, bad ? "mismatch" : "sample");
+            std::printf("{\"k\":\"pconv\",\"i\":%d,\"j\":%d,\"R1\":\"%s\",\"R2\":\"%s\",\"x\":%s,\"res\":%s,\"cexact\":%d,\"ub\":%d,\"forms\":%d,\"why\":\"%s\"}\n", i, j, rep_name<R1>(), rep_name<R2>(),
+                        wire((i128)xv).c_str(), wire((i128)res).c_str(), (int)exact, ub, (int)((r2 == res) && (r3 == res) && (r4 == res) && unit_only_ok), bad ? "mismatch" : "sample");
     }
     std::printf("{\"k\":\"ptsum\",\"what\":\"conv\",\"i\":%d,\"j\":%d,\"n\":%lld,\"exact\":%lld,\"mismatches\":%lld}\n", i, j, n, nexact, mism);
 }
-template <typename U1, typename U2, typename R>
+template <typename U1, typename U2, typename R, typename R2 = R>
 void pmixed(int i, int j, const char *pa1_, const char *pb1_, const char *pa2_, const char *pb2_, uint64_t seed) {
     const i128 pa1 = parse_i128(pa1_), pb1 = parse_i128(pb1_), pa2 = parse_i128(pa2_), pb2 = parse_i128(pb2_);
     long long n = 0, mism = 0;
@@ -61,12 +66,13 @@ void pmixed(int i, int j, const char *pa1_, const char *pb1_, const char *pa2_, 
     for (long long xv : xs) for (long long yv : ys) {
         AUV_INFLIGHT("mixed point ops units %d,%d (%s) x=%lld y=%lld", i, j, rep_name<R>(), xv, yv);
         auto p1 = make_quantity_point<U1>((R)xv);
-        auto p2 = make_quantity_point<U2>((R)yv);
+        if (xv < (long long)std::numeric_limits<R>::lowest() || xv > (long long)std::numeric_limits<R>::max() || yv < (long long)std::numeric_limits<R2>::lowest() || yv > (long long)std::numeric_limits<R2>::max()) continue;
+        auto p2 = make_quantity_point<U2>((R2)yv);
         bool lt = p1 < p2, le = p1 <= p2, gt = p1 > p2, ge = p1 >= p2, eq = p1 == p2, ne = p1 != p2;
         auto d = p1 - p2;
-        auto s = p1 + make_quantity<U2>((R)yv);
-        auto m = p1 - make_quantity<U2>((R)yv);
-        auto s2 = make_quantity<U2>((R)yv) + p1;
+        auto s = p1 + make_quantity<U2>((R2)yv);
+        auto m = p1 - make_quantity<U2>((R2)yv);
+        auto s2 = make_quantity<U2>((R2)yv) + p1;
         ++n;
         i128 P1 = (i128)xv * pa1 + pb1, P2 = (i128)yv * pa2 + pb2;
         bool bad = (lt != (P1 < P2)) || (le != (P1 <= P2)) || (gt != (P1 > P2)) || (ge != (P1 >= P2)) || (eq != (P1 == P2)) || (ne != (P1 != P2)) || !(s2 == s);
